@@ -11,7 +11,8 @@ C15 line protocol.  One line = one call:
   start, stop, factor, jitter, draws   doubles as 16 hex digits (big-endian bit pattern);
           draws = comma separated scripted `random.random()` results, `-` = none
           (positions past the end of the script draw 0)
-  count   `N` (None), `R` ('repeat') or a decimal integer
+  count   `N` (None), `R` ('repeat') or a decimal integer; `N<m>` = None and the implementation produced `m`
+          values: judged as count=m when m is at least the model's minimal default count (`acceptCount`)
   take    how many values of an endless generator are printed
 
 Output:  `err ValueError` | `fuel` | `ok v,v,…` (`ok -` when empty) | `rep v,v,…`
@@ -71,8 +72,11 @@ def ratOfBits (b : UInt64) : Option Rat :=
 
 def showRat (q : Rat) : String := s!"{q.num}/{q.den}"
 
-def parseCount? (s : String) : Option Count :=
-  if s = "N" then some .dflt else if s = "R" then some .rep else s.toInt?.map .num
+/-- `N` (None), `N<m>` (None, and the implementation produced `m` values), `R` ('repeat') or an integer -/
+def parseCount? (s : String) : Option (Count × Option Nat) :=
+  if s = "N" then some (.dflt, none) else if s = "R" then some (.rep, none)
+  else if s.startsWith "N" then (s.drop 1).toNat?.map fun m => (.dflt, some m)
+  else s.toInt?.map fun k => (.num k, none)
 
 def listM? {β γ : Type} (f : β → Option γ) : List β → Option (List γ)
   | [] => some []
@@ -85,6 +89,14 @@ def fuel : Nat := 2000000
 section
 variable {α : Type} [LE α] [LT α] [DecidableLE α] [DecidableLT α] [BEq α]
   [Mul α] [Sub α] [Neg α] [OfNat α 0] [OfNat α 1]
+
+/-- the parameters of a call; a default-count call for which the implementation produced `m` values is judged
+    as `acceptCount` says -/
+def mkParams (st sp : α) (c : Count) (m? : Option Nat) (f j : α) : Params α :=
+  let p : Params α := { start := st, stop := sp, factor := f, count := c, jitter := j }
+  match m? with
+  | some m => acceptCount fuel p m
+  | none => p
 
 /-- observed values as sent by the harness: `-` = none; a token that is not a number parses to `none` -/
 def parseObserved (parse : String → Option α) (s : String) : List (Option α) :=
@@ -121,8 +133,8 @@ def runCase (parse : String → Option α) (shw : α → String) (toRat : α →
     (fn start stop count factor jitter take draws : String) (observed : Option String) : String :=
   match parse start, parse stop, parseCount? count, parse factor, parse jitter, take.toNat?,
         (if draws = "-" then some [] else listM? parse (splitOnChar draws ',')) with
-  | some st, some sp, some c, some f, some j, some tk, some rs =>
-    let p : Params α := { start := st, stop := sp, factor := f, count := c, jitter := j }
+  | some st, some sp, some (c, m?), some f, some j, some tk, some rs =>
+    let p : Params α := mkParams st sp c m? f j
     let r : Nat → α := fun i => rs.getD i 0
     if let some o := observed then runCaseJ shw toRat slack fn p tk (parseObserved parse o) else
     let out := if fn = "I" then some (backoffIter fuel r p) else if fn = "L" then some (backoff fuel r p) else none
@@ -149,15 +161,15 @@ def parseOp? (parse : String → Option α) : List String → Option (Op α × O
   | [fn, start, stop, count, factor, jitter, draws] =>
     match parse start, parse stop, parseCount? count, parse factor, parse jitter,
           (if draws = "-" then some [] else listM? parse (splitOnChar draws ',')) with
-    | some st, some sp, some c, some f, some j, some rs =>
-      let p : Params α := { start := st, stop := sp, factor := f, count := c, jitter := j }
+    | some st, some sp, some (c, m?), some f, some j, some rs =>
+      let p : Params α := mkParams st sp c m? f j
       let r : Nat → α := fun i => rs.getD i 0
       if fn = "L" then some (.callL p r, none) else if fn = "I" then some (.callI p r, none) else none
     | _, _, _, _, _, _ => none
   | [fn, start, stop, count, factor, jitter, _draws, observed] =>
     match parse start, parse stop, parseCount? count, parse factor, parse jitter with
-    | some st, some sp, some c, some f, some j =>
-      let p : Params α := { start := st, stop := sp, factor := f, count := c, jitter := j }
+    | some st, some sp, some (c, m?), some f, some j =>
+      let p : Params α := mkParams st sp c m? f j
       if fn = "L" then some (.callL p (fun _ => 0), some (parseObserved parse observed))
       else if fn = "I" then some (.callI p (fun _ => 0), some (parseObserved parse observed)) else none
     | _, _, _, _, _ => none
